@@ -33,7 +33,7 @@ func C05(r *core.Report) {
 		}
 	}
 	r.Floor("C05.R1", 6)
-	r.Floor("C05.R2", 8)
+	r.Floor("C05.R2", 10)
 	r.Floor("C05.R3", 2)
 	r.Floor("C05.R4", 2)
 	r.Floor("C05.R5", 2)
@@ -152,6 +152,41 @@ func c05Sizes(r *core.Report, pk string) {
 		if mb, ok := core.Unparen(be.Y).(*ast.BinaryExpr); ok && mb.Op == token.MUL {
 			m, _ = core.ConstInt(info, mb.Y)
 		}
+	}
+	// the n of 4 + 8*n is the length of the very slice whose length is written as the count and whose elements are written
+	{
+		lenArgOf := func(e ast.Expr) types.Object {
+			var o types.Object
+			ast.Inspect(e, func(m ast.Node) bool {
+				if c, ok := m.(*ast.CallExpr); ok && core.BuiltinName(info, c) == "len" && len(c.Args) == 1 && o == nil {
+					o = core.ObjOf(info, c.Args[0])
+				}
+				return true
+			})
+			return o
+		}
+		var sizeOf, countOf, rangedOf types.Object
+		if sizeExpr != nil {
+			sizeOf = lenArgOf(sizeExpr)
+		}
+		ast.Inspect(seal.Body, func(n ast.Node) bool {
+			switch x := n.(type) {
+			case *ast.CallExpr:
+				if core.CalleeName(info, x) == "encoding/binary.Write" && len(x.Args) == 3 && strings.Contains(core.ExprStr(x.Args[2]), "len(") {
+					countOf = lenArgOf(x.Args[2])
+				}
+			case *ast.RangeStmt:
+				for _, c := range core.CallsIn(x.Body, false) {
+					if core.CalleeName(info, c) == "encoding/binary.Write" && len(c.Args) == 3 && x.Value != nil && core.ObjOf(info, c.Args[2]) == core.ObjOf(info, x.Value) {
+						rangedOf = core.ObjOf(info, x.X)
+					}
+				}
+			}
+			return true
+		})
+		same := sizeOf != nil && sizeOf == countOf && (rangedOf == nil || rangedOf == sizeOf)
+		r.Check(same, rule, pk+"#size-counts-the-written-slice", posP(r, seal.Pos()), "the recorded bucket size, the count field and the elements written all refer to the same slice",
+			"the bucket size is computed from another slice than the one whose length and elements are written (e.g. before de-duplication): every later bucket offset is off by 8 bytes per dropped element")
 	}
 	r.Check(cntW == 4 && elW == 8 && a == cntW && m == elW, rule, pk+"#bucket-size=4+8n", posP(r, seal.Pos()), "a bucket is a uint32 count plus uint64 elements and its size is recorded as 4 + 8*count",
 		fmt.Sprintf("the size recorded for a bucket (%d + %d*count) does not match what is written (count: %d bytes, element: %d bytes): every later bucket offset is wrong", a, m, cntW, elW))
